@@ -291,3 +291,40 @@ Proof.
     + rewrite bsum_zeros. rewrite (bins_sum_to_T_l t eu Hu). lra.
     + apply Forall_forall. intros x Hx. apply in_map_iff in Hx. destruct Hx as [y [Hy _]]. symmetry. exact Hy.
 Qed.
+
+(* ------------------------------------------------------------------------------------------------ *)
+(* F. drop_zero_weight_segments: only all-zero columns go                                            *)
+(* ------------------------------------------------------------------------------------------------ *)
+
+Lemma existsb_false_in : forall (A : Type) (f : A -> bool) l x, existsb f l = false -> In x l -> f x = false.
+Proof.
+  intros A f l x H Hx. destruct (f x) eqn:E; [ | reflexivity ].
+  assert (existsb f l = true) by (apply existsb_exists; exists x; split; assumption). congruence.
+Qed.
+
+(* every (hour, segment) with a weight above zero survives the filter *)
+Lemma drop_keeps_positive : forall present t s m, In s t -> In m present -> Qle_bool (seg_weight s m) 0 = false ->
+  In s (dropped_table present t).
+Proof.
+  intros present t s m Hs Hm Hw. unfold dropped_table. apply filter_In. split; [ exact Hs | ].
+  unfold kept_segment. apply existsb_exists. exists m. split; [ exact Hm | ]. rewrite Hw. reflexivity.
+Qed.
+
+(* a dropped column has no weight above zero on any hour of the index *)
+Lemma dropped_nowhere_positive : forall present s m, kept_segment present s = false -> In m present ->
+  seg_weight s m <= 0.
+Proof.
+  intros present s m Hk Hm. unfold kept_segment in Hk. pose proof (existsb_false_in _ _ _ _ Hk Hm) as E. cbn beta in E.
+  apply negb_false_iff in E. apply Qle_bool_iff. exact E.
+Qed.
+
+(* so, for an hour of the index, the weights above zero are the same with and without the filter *)
+Lemma drop_preserves_positive_row : forall present t m, In m present ->
+  positive_row (dropped_table present t) m = positive_row t m.
+Proof.
+  intros present t m Hm. unfold positive_row, dropped_table, row_weights.
+  induction t as [ | s t IH ]; [ reflexivity | ]. cbn [filter map].
+  destruct (kept_segment present s) eqn:K.
+  - cbn [map filter snd]. destruct (negb (Qle_bool (seg_weight s m) 0)); rewrite IH; reflexivity.
+  - cbn [snd]. pose proof (dropped_nowhere_positive present s m K Hm) as Hle. apply Qle_bool_iff in Hle. rewrite Hle. cbn [negb]. exact IH.
+Qed.
